@@ -15,13 +15,30 @@ func drawInt(t *rapid.T, lo, hi int, label string) int {
 
 func drawBool(t *rapid.T, label string) bool { return rapid.Bool().Draw(t, label) }
 
+// unbiasedN draws an index in [0,n) that is (nearly) uniform. rapid's integer
+// generators are deliberately biased towards small values, which would skew
+// class weights; a Fibonacci hash of a biased 64-bit draw spreads the likely
+// small draws evenly over the range while 0 still maps to 0 (so shrinking
+// moves towards the first alternative).
+func unbiasedN(t *rapid.T, n int, label string) int {
+	if n <= 1 {
+		return 0
+	}
+	u := rapid.Uint64().Draw(t, label)
+	x := (u * 0x9E3779B97F4A7C15) >> 32
+	return int((x * uint64(n)) >> 32)
+}
+
+// drawIdx selects an entry of a table of n entries uniformly.
+func drawIdx(t *rapid.T, n int, label string) int { return unbiasedN(t, n, label) }
+
 // pick draws an index according to integer weights.
 func pick(t *rapid.T, label string, weights ...int) int {
 	total := 0
 	for _, w := range weights {
 		total += w
 	}
-	x := rapid.IntRange(0, total-1).Draw(t, label)
+	x := unbiasedN(t, total, label)
 	for i, w := range weights {
 		if x < w {
 			return i
@@ -109,7 +126,7 @@ func GenString(t *rapid.T, maxLen int) string {
 	case 0:
 		return ""
 	case 2:
-		return syntaxLookalikes[drawInt(t, 0, len(syntaxLookalikes)-1, "look")]
+		return syntaxLookalikes[drawIdx(t, len(syntaxLookalikes), "look")]
 	case 3: // plain short ascii
 		n := drawInt(t, 1, 4, "n")
 		b := make([]byte, n)
